@@ -45,10 +45,12 @@ def state_of(obj):
         return repr(sorted((k, repr(v)) for k, v in vars(obj).items()))
 
 
-def call(obj, dm):
+def call(obj, dm, item=None):
     try:
         with I.quiet_fds():
             if hasattr(obj, "evaluate"):
+                if isinstance(item, dict) and item.get("b_kw") is not None and type(obj).__name__ == "SIMUS":
+                    return obj.evaluate(dm, b=list(item["b_kw"]))     # the per-call keyword SIMUS accepts
                 return obj.evaluate(dm)
             return obj.transform(dm)
     except Exception as e:  # noqa: BLE001
@@ -107,8 +109,13 @@ def gen_matrix(rng, crit_pool):
     nan = []
     if style == "nan":
         nan = [[rng.randrange(n), rng.randrange(m)]]
-    return {"matrix": mtx, "objectives": objs, "weights": [rng.randint(1, 16) / 8.0 for _ in range(m)],
-            "alternatives": [f"A{i}" for i in range(n)], "criteria": list(crits), "nan": nan, "style": style}
+    out = {"matrix": mtx, "objectives": objs, "weights": [rng.randint(1, 16) / 8.0 for _ in range(m)],
+           "alternatives": [f"A{i}" for i in range(n)], "criteria": list(crits), "nan": nan, "style": style}
+    if rng.random() < 0.3:
+        # a per-call keyword argument (SIMUS's b): right length (looser bounds), or a wrong length that makes the call raise
+        k = m if rng.random() < 0.5 else rng.choice([m + 1, max(1, m - 1), 1, 4])
+        out["b_kw"] = [None if rng.random() < 0.4 else rng.choice([50.0, 80.0, 0.0]) for _ in range(k)]
+    return out
 
 
 def mk(case):
@@ -121,6 +128,11 @@ def mk(case):
 
 def gen_spec(rng, quals):
     t = rng.random()
+    if t < 0.06:
+        # the one method with a per-call keyword argument
+        sim = [q for q in quals if q.endswith(".SIMUS")]
+        if sim:
+            return {"kind": "class", "qual": sim[0]}
     if t < 0.45:
         return {"kind": "class", "qual": rng.choice(quals)}
     if t < 0.75:
@@ -160,8 +172,8 @@ def run_seq(case):
         problems = []
         for k, item in enumerate(case["seq"]):
             dm = probe if item == "PROBE" else mk(item)
-            out = describe_out(call(obj, dm))
-            out2 = describe_out(call(twin, dm))
+            out = describe_out(call(obj, dm, item))
+            out2 = describe_out(call(twin, dm, item))
             if out != out2:
                 problems.append(f"call {k}: two objects with equal parameters disagree")
             if item == "PROBE" and out != ref:
